@@ -12,6 +12,7 @@ from ..ref import girvm, pyexec
 
 PID = "C01"
 BATCH = 120
+CONTROL = {"if", "else", "elif", "while", "for", "break", "continue", "return", "loopvar"}
 
 
 def gir_call(vm, name, args):
@@ -109,7 +110,7 @@ def batches(quick):
     cur = []
     texts = []
     n = 0
-    for body, feats, size in pygen.statement_programs(3 if quick else 4, quick):
+    for body, feats, size in pygen.statement_programs(4, quick):
         name = f"entry_{n}"
         n += 1
         src = pygen.statement_source(name, body)
@@ -174,13 +175,16 @@ def main():
                 else:
                     what = f"input {args}: CPython -> outputs {py[0]} result {py[1]}; GIR -> outputs {gir[0]} result {gir[1]}; program:\n{src}"
                     prefix = f"{layer}-mismatch"
+                if layer == "b":
+                    control = feats & CONTROL
+                    feats = control if control else feats
                 rep.feature_violation(prefix, feats, what, {"layer": layer, "source": src, "args": list(args) if args else None,
                                                              "prelude": b["prelude"]}, size=size, text=text)
     new, known = rep.finish()
     evidence.write(PID, "exploration", {
         "evaluations": stats["evaluations"], "distinct_nontrivial": stats["programs_evaluated"],
         "rule": "programs enumerated exhaustively smallest-first from the grammar of mc/gen/pygen.py (expressions depth<=1"
-                + ("" if quick else "/2") + f", statement trees <= {3 if quick else 4} nodes, binding/object products); distinct by "
+                + ("" if quick else "/2") + f", statement trees <= 4 nodes over the {'reduced' if quick else 'full'} statement/condition alphabet, binding/object products); distinct by "
                 "construction; non-trivial = CPython finished within the step budget on at least one input vector, each such "
                 "program compared on every input vector",
         "samples": samples or [{"layer": "b", "program": "a = b"}],
